@@ -424,7 +424,7 @@ func cookieDecoderComplete(c *Check, rule string) {
 		// cookies are separated by ';' only (RFC 6265): any other separator lets the value of one cookie smuggle in
 		// a second name=value pair (`theme=dark,__Host-…=id`)
 		if strings.HasPrefix(name, "Split") && len(args) >= 2 {
-			if sep, isC := constString(args[1]); !isC || strings.TrimSpace(sep) != ";" {
+			if sep, isC := constString(args[1]); !isC || sep != ";" {
 				bad = "the header is split with separator " + descDepth(args[1], 2) + " at " + posOf(P, cc) + " (cookie pairs are separated by ';' only)"
 			}
 		}
